@@ -202,6 +202,21 @@ fn gen_batch(rng: &mut Rng, next_id: &mut u64) -> (String, Vec<Scenario>) {
         beyond[i].kind = Kind::File(fresh(rng).max(1) + 2_000_000);
         out.push(Scenario { label: "beyond-beacon-content-changed", entries: beyond, beacon, history: vec![], json_cache: false, expect: Expect::Same });
     }
+    // model validation (not judged): the same contents under un-padded names whose numbers cross a
+    // digit-length boundary (98, 99, 100, ...): ordering is by number, not by name, so the root is the base's
+    {
+        let shift = 99 - first.min(99) - rng.below(2);
+        let twin: Vec<Entry> = base
+            .iter()
+            .enumerate()
+            .map(|(i, e)| {
+                let n = first + (i as u64) / 3 + shift;
+                let ext = e.name.rsplit('.').next().unwrap();
+                Entry { name: format!("{n}.{ext}"), kind: e.kind.clone() }
+            })
+            .collect();
+        out.push(Scenario { label: "unpadded-twin-crossing-digit-boundary", entries: twin, beacon: beacon + shift, history: vec![], json_cache: false, expect: Expect::Unjudged });
+    }
     // model-validation scenarios (not judged): unusual names, stale cache
     match rng.below(6) {
         0 => {
